@@ -152,6 +152,16 @@ def r11_1(ctx, rr):
             rr.violate(key, "%s occupies %d bytes per block of %d bits = %.4f%% of the bit vector; the documentation states %.4f%%" % (full[0], size, block_bits, 100 * (got or 0), 100 * frac), "")
 
 
+def _num_ones_of(F, r9):
+    """what Rank9's num_ones() expands to (the total kept in the sentinel counter)"""
+    nb = F.find(r"^<rank_sel::rank9::Rank9<B, C> as traits::rank_sel::NumBits>::num_ones$")
+    if len(nb) != 1:
+        return None
+    T = Termizer(F, nb[0])
+    T.env[nb[0].params[0]["id"]] = r9
+    return T.term(nb[0].body)
+
+
 @rule("R11.2", props=["C11", "C02"], floor=3, title="Select9 allocates one inventory word per 512 ones (+1) and one subinventory word per four words")
 def r11_2(ctx, rr):
     F = ctx.F()
@@ -165,7 +175,7 @@ def r11_2(ctx, rr):
     r9 = ("var", b.params[0]["name"], b.params[0]["id"])
     inv = env.get("inventory_size", ("unk", "?"))
     rr.instances += 1
-    ok = inv[0] == "call" and inv[1] == "int::div_ceil" and inv[2][0] == ("call", "NumBits::num_ones", (r9,)) and inv[2][1][0] == "def" and inv[2][1][1].endswith("ONES_PER_INVENTORY")
+    ok = inv[0] == "call" and inv[1] == "int::div_ceil" and inv[2][0] in (("call", "NumBits::num_ones", (r9,)), Termizer(F, b).mk_call("NumBits::num_ones", (r9,), None) if False else ("call", "NumBits::num_ones", (r9,)), _num_ones_of(F, r9)) and inv[2][1][0] == "def" and inv[2][1][1].endswith("ONES_PER_INVENTORY")
     rr.check(ok, "Select9::new:inventory_size", "Select9::new must size the inventory as ceil(num_ones / ONES_PER_INVENTORY); found %s" % tshow(inv), b.span)
     CE = ConstEval(F)
     rr.instances += 1
